@@ -8,8 +8,9 @@
 // here: the semantics lives in spec/WuffsCore.tla.
 //
 // usage: wexport -pkg demo -out prog.json file.wuffs...
-//        exit 0: accepted (JSON written); exit 3: rejected by the compiler
-//        (JSON {"accepted":false,"error":...} written); other: tooling failure.
+//
+//	exit 0: accepted (JSON written); exit 3: rejected by the compiler
+//	(JSON {"accepted":false,"error":...} written); other: tooling failure.
 package main
 
 import (
@@ -55,6 +56,19 @@ type jnode struct {
 	Fx  []int  `json:"fx"` // statements: fact expressions held before the statement (H1)
 	Hf  int    `json:"hf"` // 1 if the H1 observer saw this statement
 	Eff string `json:"eff"`
+	// -wide only: exact decimal values of cv / lo / hi whatever their magnitude (for the Apalache full-width encoding)
+	Scv string `json:"scv,omitempty"`
+	Slo string `json:"slo,omitempty"`
+	Shi string `json:"shi,omitempty"`
+}
+
+var wide bool
+
+func dec(v *big.Int) string {
+	if v == nil || !wide {
+		return ""
+	}
+	return v.String()
 }
 
 type exporter struct {
@@ -150,6 +164,7 @@ func (e *exporter) add(n *a.Node, share bool) int {
 		b := x.MBounds()
 		j.Hlo, j.Lo = small(b[0])
 		j.Hhi, j.Hi = small(b[1])
+		j.Scv, j.Slo, j.Shi = dec(x.ConstValue()), dec(b[0]), dec(b[1])
 		j.Eff = x.Effect().String()
 		if mt := x.MType(); mt != nil {
 			j.Ty = e.add(mt.AsNode(), share)
@@ -238,6 +253,7 @@ type output struct {
 func main() {
 	pkg := flag.String("pkg", "demo", "package name")
 	out := flag.String("out", "prog.json", "output file")
+	flag.BoolVar(&wide, "wide", false, "also write exact decimal strings of constant values and bounds (scv, slo, shi)")
 	flag.Parse()
 	res := &output{Pkg: *pkg}
 	write := func() {
